@@ -80,6 +80,7 @@ def oracle(tier, rng, deep=False):
             X = np.array(spec["X"])
             variants = [(sp_, wm_) for sp_ in ([False, True] if spec["solver"] in ("AndersonCD", "GroupBCD", "MultiTaskBCD", "GramCD", "FISTA") else [False])
                         for wm_ in ([False, True] if spec["solver"] in ("AndersonCD", "ProxNewton", "GroupBCD", "GramCD", "MultiTaskBCD") else [False])]
+            by_variant = {}
             for sp_, wm_ in variants:
                 if sp_ and spec["datafit"] == "Logistic" and spec["penalty"] == "WeightedGroupL2":
                     continue
@@ -106,6 +107,16 @@ def oracle(tier, rng, deep=False):
                 ev += 1
                 nontriv += 1
                 w = np.asarray(out["w"], dtype=float)
+                # AndersonCD treats all-zero columns identically in dense and CSC storage: where the dense run converged with zero
+                # coefficients on them, so must the CSC run with the same budget (convex penalties; other coefficients may differ
+                # when the minimiser is not unique)
+                if spec["solver"] == "AndersonCD" and spec["penalty"] in ("L1", "L1_plus_L2"):
+                    zc = [j for j in range(X.shape[1]) if not np.any(X[:, j])]
+                    by_variant[(sp_, wm_)] = (w, out["stop"])
+                    dn, cs_ = by_variant.get((False, wm_)), by_variant.get((True, wm_))
+                    if sp_ and dn is not None and cs_ is not None and zc and dn[1] <= spec["tol"] and np.all(dn[0][zc] == 0) \
+                            and np.any(np.abs(cs_[0][zc]) > 1e-6):
+                        failures.append(dict(site=f"null-column-dense-vs-csc:{site}", input=inp, observed=cs_[0].tolist(), expected=dn[0].tolist()))
                 if not (np.all(np.isfinite(w)) and np.all(np.isfinite(out["objs"])) and not math.isnan(out["stop"])):
                     failures.append(dict(site=f"nonfinite:{site}", input=inp, observed=out))
                     continue
